@@ -1,15 +1,15 @@
 SPECIFICATION Spec
 CONSTANTS
   MaxReq = 3
-  McastEnabled = FALSE
-  Protos <- ProtosUT
+  McastEnabled = TRUE
+  Protos <- ProtosTM
   UDPEnabled = TRUE
   HasRecord = TRUE
   HasPlay = TRUE
-  HasPause = FALSE
+  HasPause = TRUE
   Tracks = {0, 1}
   MethodSet <- Methods
-  ShSet <- AllSh
+  ShSet <- NoUnknown
 INVARIANT BImpliesA
 INVARIANT Agreement
 CHECK_DEADLOCK FALSE
